@@ -93,10 +93,14 @@ def waiting_resume(doc):
     proc = _dummy_process()
     bad = []
     cands = [_plain(inp.get('value'))] if 'value' in inp else []
-    for value in cands + [None, 0, '', NULL]:
+    for value in cands + [None, 0, '', NULL, ValueError('a value that happens to be an exception'), KeyError('k'), [1, 2]]:
         st = ps.Waiting(proc, proc.nxt)
         st.resume(value)
-        got = st._waiting_future.result()
+        try:
+            got = st._waiting_future.result()
+        except Exception as e:  # noqa
+            bad.append(f'resume({value!r}) made the waiting future RAISE {e!r} instead of recording the value')
+            break
         if got is not value and not (value is NULL and got == NULL):
             bad.append(f'resume({value!r}) recorded {got!r}')
             break
@@ -543,7 +547,9 @@ def persister_history(doc):
                            ('save', pids[-1], 'a'), ('delete_process', pids[0], None), ('delete_process', pids[0], None),
                            ('save', pids[0], 't'), ('delete_process', pids[-1], None),
                            ('save', pids[1], ''), ('save', pids[1], None), ('delete', pids[1], ''), ('save', pids[1], ''),
-                           ('advance', pids[1], None), ('save', pids[1], ''), ('delete', pids[1], None)]
+                           ('advance', pids[1], None), ('save', pids[1], ''), ('delete', pids[1], None),
+                           # deleting a checkpoint of a process that has none (never saved / all removed) is a no-op as well
+                           ('delete_process', pids[1], None), ('delete', pids[1], 'b'), ('delete', pids[1], None)]
                 for op, pid, tag in history:
                     if op == 'advance':
                         procs[pid].set_status('advanced %d' % len(model))   # the live process moves on: a later save must record this
@@ -556,12 +562,15 @@ def persister_history(doc):
                         for k in [k for k in model if k[0] == pid]:
                             model.pop(k)
                     for name, p in pers.items():
-                        if op == 'save':
-                            p.save_checkpoint(procs[pid], tag)
-                        elif op == 'delete':
-                            p.delete_checkpoint(pid, tag)
-                        else:
-                            p.delete_process_checkpoints(pid)
+                        try:
+                            if op == 'save':
+                                p.save_checkpoint(procs[pid], tag)
+                            elif op == 'delete':
+                                p.delete_checkpoint(pid, tag)
+                            else:
+                                p.delete_process_checkpoints(pid)
+                        except Exception as e:  # noqa
+                            return f'{name} persister: {op}({pid!r}, {tag!r}) raised {type(e).__name__}: {e} (stored keys: {sorted(model, key=repr)})'
                         got = sorted(((c.pid, c.tag) for c in p.get_checkpoints()), key=repr)
                         if got != sorted(model, key=repr):
                             return f'{name} persister after {op}({pid!r}, {tag!r}) lists {got}; the stored keys are {sorted(model, key=repr)}'
@@ -643,6 +652,50 @@ def _run(coro):
         return loop.run_until_complete(asyncio.wait_for(coro, 30))
     finally:
         loop.close()
+
+
+def cleanups_once(doc):
+    """registered cleanups: each runs exactly once when the process terminates (finished, killed before / during a step, excepted),
+    also when one of them raises; the process is closed afterwards and nothing escapes"""
+    import plumpy
+    from rprocs import Plain
+
+    class Boom(plumpy.Process):
+        def run(self):
+            raise RuntimeError('step failed')
+
+    async def main():
+        bad = []
+        for how in ('finish', 'kill-created', 'except', 'close-twice'):
+            for raising in (None, 0, 1, 2):
+                proc = Boom() if how == 'except' else Plain()
+                ran = []
+
+                def mk(i):
+                    def cleanup():
+                        ran.append(i)
+                        if i == raising:
+                            raise ValueError('cleanup %d failed' % i)
+                    return cleanup
+                for i in range(3):
+                    proc.add_cleanup(mk(i))
+                try:
+                    if how == 'kill-created':
+                        proc.kill('stop')
+                    else:
+                        await asyncio.wait_for(proc.step_until_terminated(), 10)
+                    if how == 'close-twice':
+                        proc.close()
+                except Exception as e:  # noqa
+                    bad.append(f'{how}, cleanup {raising} raising: {type(e).__name__} escaped: {e}')
+                    continue
+                if sorted(ran) != [0, 1, 2]:
+                    bad.append(f'{how}, cleanup {raising} raising: cleanups ran {ran}; expected each of 0, 1, 2 exactly once')
+                if not proc._closed:
+                    bad.append(f'{how}, cleanup {raising} raising: the process is not closed')
+        return '; '.join(bad[:3]) or None
+
+    return _run(main())
 
 
 def fail_after_termination(doc):
